@@ -1,5 +1,6 @@
 SPECIFICATION Spec
 CONSTANTS NC = 2 NI = 2 Delays = {1} PassTimeouts = {} Filters = {"all"}
-          Nesting = TRUE ReAdds = 0 ExtFut = FALSE ReapOwnOnly = TRUE LateCancel = TRUE
+          Nesting = TRUE ReAdds = 0 ExtFut = 0 ReapOwnOnly = TRUE LateCancel = TRUE
           HScripts = {"none", "raise", "pop", "add"} CoHandlers = FALSE ClaimFirst = FALSE
+          TMShutdown = FALSE ShutGuard = FALSE NFut = 3 FutLoop = "all"
 INVARIANT NoTimeoutAfterClaim
